@@ -132,33 +132,85 @@ pub struct Imp {
     /// slowest single call so far, seconds
     pub slowest: f64,
     pub poisoned: bool,
+    /// journal mode (RITI_HARNESS_JOURNAL=<dir>): every call is written and flushed BEFORE it is made, so that a
+    /// call that aborts the process (stack overflow, abort) or never returns can be identified afterwards
+    journal: Option<std::fs::File>,
+}
+
+use std::sync::atomic::{AtomicU64, Ordering};
+/// start time (ms since process start, 0 = idle) of the call each worker thread is currently making
+static INFLIGHT: [AtomicU64; 64] = [const { AtomicU64::new(0) }; 64];
+static NEXT_SLOT: AtomicU64 = AtomicU64::new(0);
+static NEXT_JOURNAL: AtomicU64 = AtomicU64::new(0);
+thread_local! { static SLOT: usize = (NEXT_SLOT.fetch_add(1, Ordering::SeqCst) % 64) as usize; }
+fn now_ms() -> u64 { static START: std::sync::OnceLock<Instant> = std::sync::OnceLock::new(); START.get_or_init(Instant::now).elapsed().as_millis() as u64 + 1 }
+
+/// watchdog: a call that does not return within `limit_s` ends the process with exit code 97 (a hang is a C01 violation;
+/// the check then re-runs the stream in journal mode to find the call)
+pub fn start_watchdog(limit_s: u64) {
+    let _ = now_ms();
+    std::thread::spawn(move || loop {
+        std::thread::sleep(std::time::Duration::from_millis(500));
+        let now = now_ms();
+        for s in INFLIGHT.iter() {
+            let t = s.load(Ordering::SeqCst);
+            if t != 0 && now.saturating_sub(t) > limit_s * 1000 {
+                eprintln!("HARNESS-WATCHDOG: a library call has not returned for {} s", limit_s);
+                std::process::exit(97);
+            }
+        }
+    });
 }
 
 impl Imp {
     pub fn new(cfg: &Config) -> Option<Imp> {
         let r = catch_unwind(AssertUnwindSafe(|| RitiContext::new_with_config(cfg)));
-        r.ok().map(|ctx| Imp { ctx, slowest: 0.0, poisoned: false })
+        r.ok().map(|ctx| Imp { ctx, slowest: 0.0, poisoned: false, journal: None })
+    }
+    /// journal mode: describe the context (layout, options) and start a journal file for it
+    pub fn describe(&mut self, desc: &str) {
+        if self.journal.is_some() { self.note(desc); return; }
+        if let Ok(dir) = std::env::var("RITI_HARNESS_JOURNAL") {
+            let _ = std::fs::create_dir_all(&dir);
+            let n = NEXT_JOURNAL.fetch_add(1, Ordering::SeqCst);
+            if let Ok(mut f) = std::fs::File::create(format!("{}/{}-{}.journal", dir, std::process::id(), n)) {
+                use std::io::Write; let _ = writeln!(f, "{}", desc); let _ = f.flush();
+                self.journal = Some(f);
+            }
+        }
+    }
+    fn note(&mut self, line: &str) {
+        if let Some(f) = self.journal.as_mut() { use std::io::Write; let _ = writeln!(f, "{}", line); let _ = f.flush(); }
     }
     fn timed<T>(&mut self, f: impl FnOnce(&mut RitiContext) -> T) -> Option<T> {
         let t = Instant::now();
+        let slot = SLOT.with(|s| *s);
+        INFLIGHT[slot].store(now_ms(), Ordering::SeqCst);
         let r = catch_unwind(AssertUnwindSafe(|| f(&mut self.ctx)));
+        INFLIGHT[slot].store(0, Ordering::SeqCst);
+        self.note("ok");
         let dt = t.elapsed().as_secs_f64();
         if dt > self.slowest { self.slowest = dt; }
         match r { Ok(v) => Some(v), Err(_) => { self.poisoned = true; None } }
     }
     pub fn key(&mut self, code: u16, modifier: u8, sel: u8) -> Obs {
+        if self.journal.is_some() { self.note(&format!("key {} {} {}", code, modifier, sel)); }
         match self.timed(|c| c.get_suggestion_for_key(code, modifier, sel)) { Some(s) => observe(&s), None => Obs::Panic }
     }
     pub fn backspace(&mut self, ctrl: bool) -> Obs {
+        if self.journal.is_some() { self.note(&format!("bs {}", ctrl as u8)); }
         match self.timed(|c| c.backspace_event(ctrl)) { Some(s) => observe(&s), None => Obs::Panic }
     }
     pub fn commit(&mut self, i: usize) -> Obs {
+        if self.journal.is_some() { self.note(&format!("commit {}", i)); }
         match self.timed(|c| c.candidate_committed(i)) { Some(()) => Obs::Unit, None => Obs::Panic }
     }
     pub fn finish(&mut self) -> Obs {
+        if self.journal.is_some() { self.note("finish"); }
         match self.timed(|c| c.finish_input_session()) { Some(()) => Obs::Unit, None => Obs::Panic }
     }
     pub fn update(&mut self, cfg: &Config) -> Obs {
+        if self.journal.is_some() { self.note("update (see the following describe line)"); }
         match self.timed(|c| c.update_engine(cfg)) { Some(()) => Obs::Unit, None => Obs::Panic }
     }
     pub fn ongoing(&mut self) -> bool {
